@@ -83,9 +83,17 @@ func VerifMain() {
 		maxExecs = flag.Int64("max-execs", 0, "execution cap")
 		boundF   = flag.Int("bound", -100, "override deviation bound")
 		prop     = flag.String("prop", "", "property whose oracles are evaluated (empty: all)")
+		bytex    = flag.String("bytex", "", "E3 mode: strings | templates | probes")
+		shard    = flag.Int("shard", 0, "shard index")
+		nshards  = flag.Int("nshards", 1, "number of shards")
 	)
 	flag.Parse()
 	vfProp = *prop
+	if *bytex != "" {
+		vfQuietLogger()
+		vbMain(*bytex, *shard, *nshards, *tier, *replay)
+		return
+	}
 	vfQuietLogger()
 	h := vfHarnesses[*harness]
 	if h == nil {
